@@ -234,7 +234,7 @@ def is_nontrivial(symbols):
 def plan(tier, seed):
     if tier == "quick":
         L, nsh, L14 = 4, 22, 0
-        rnd, mut, tmpl, rt, scale = 6000, 6000, 4000, 4000, 60
+        rnd, mut, tmpl, rt, scale = 6000, 6000, 4000, 4000, 70
     else:
         L, nsh, L14 = 5, 22 * 4, 6
         rnd, mut, tmpl, rt, scale = 200000, 200000, 100000, 100000, 600
@@ -431,8 +431,15 @@ def shard_scale(env, spec, rec):
         lambda k: '"' + "\\a" * k, lambda k: "'" + "\\'" * k, lambda k: 'k="' + '\\"' * k + " %} x", lambda k: '"%} ' + "\\\\" * k + "\\",
         lambda k: "_('" + "\\n" * k, lambda k: '"{{ a }}' + "\\a" * k,
     ]
+    # nesting is also scaled far beyond the interpreter's recursion limit (300 -> 1200 levels)
+    deep = [lambda k: "k=" + "[" * k + "1" + "]" * k, lambda k: "k=" + '{"a":' * k + "1" + "}" * k, lambda k: "[" * k + "]" * k, lambda k: "k=" + "[{\"a\":" * k + "1" + "}]" * k]
     for i in range(spec["n"]):
-        if i < len(fams) * 2:
+        if i >= spec["n"] - len(deep):
+            f = deep[spec["n"] - 1 - i]
+            base = 300
+            mk = lambda m, f=f, base=base: f(base * m)  # noqa: E731
+            name = f"deep{spec['n'] - 1 - i}@{base}"
+        elif i < len(fams) * 2:
             f = fams[i % len(fams)]
             base = 20 if i < len(fams) else 75
             mk = lambda m, f=f, base=base: f(base * m)  # noqa: E731
